@@ -10,6 +10,7 @@ import (
 	"fmt"
 	"os"
 	"runtime"
+	"sort"
 	"strconv"
 	"sync"
 	"sync/atomic"
@@ -37,11 +38,12 @@ type schedStep struct {
 }
 
 type schedResult struct {
-	N        int    `json:"n"`
-	Verdict  string `json:"verdict"` // ok | violation | inconclusive
-	Why      string `json:"why"`
-	Step     int    `json:"step"`
-	Schedule any    `json:"schedule,omitempty"`
+	N        int        `json:"n"`
+	History  []regEvent `json:"history,omitempty"` // invocation/return events of the calls (for diverged / mismatching schedules)
+	Verdict  string     `json:"verdict"`           // ok | diverged | mismatch | inconclusive
+	Why      string     `json:"why"`
+	Step     int        `json:"step"`
+	Schedule any        `json:"schedule,omitempty"`
 }
 
 type gproc struct {
@@ -98,8 +100,12 @@ func concSched(args []string) error {
 	sc := bufio.NewScanner(fin)
 	sc.Buffer(make([]byte, 1<<20), 1<<26)
 	n := 0
+	var clock int64
 	for sc.Scan() {
 		n++
+		var hmu sync.Mutex
+		hist := []regEvent{{H: n, E: "reset", Op: regOp{Svc: []any{}}, Res: []any{}}}
+		pnum := map[string]int{}
 		var steps []schedStep
 		if err := json.Unmarshal(sc.Bytes(), &steps); err != nil {
 			return err
@@ -141,12 +147,25 @@ func concSched(args []string) error {
 				procs[st.P] = g
 				ready := make(chan struct{})
 				op := *st.Op
+				if op.Svc == nil {
+					op.Svc = []any{}
+				}
+				pn := len(pnum) + 1
+				if v, ok := pnum[st.P]; ok {
+					pn = v
+				}
+				pnum[st.P] = pn
 				go func() {
 					mu.Lock()
 					byGoroutine[goid()] = g
 					mu.Unlock()
 					close(ready)
+					s0 := atomic.AddInt64(&clock, 1)
 					r := doOp(pool, op)
+					s1 := atomic.AddInt64(&clock, 1)
+					hmu.Lock()
+					hist = append(hist, regEvent{H: n, E: "inv", P: pn, Op: op, Res: []any{}, Stamp: s0}, regEvent{H: n, E: "ret", P: pn, Op: op, Res: r, Stamp: s1})
+					hmu.Unlock()
 					mu.Lock()
 					delete(byGoroutine, goid())
 					mu.Unlock()
@@ -158,8 +177,8 @@ func concSched(args []string) error {
 					continue
 				}
 				if waitArrive(g, *settle) {
-					res = schedResult{N: n, Verdict: "violation", Step: i, Schedule: steps,
-						Why: fmt.Sprintf("%s (%s) entered its critical section while the model says the lock is held against it", st.P, op.Kind)}
+					res = schedResult{N: n, Verdict: "diverged", Step: i, Schedule: steps,
+						Why: fmt.Sprintf("%s (%s) reached its critical section while the model says the lock is held against it", st.P, op.Kind)}
 					abort()
 					break steps
 				}
@@ -201,7 +220,7 @@ func concSched(args []string) error {
 				a, _ := json.Marshal(got)
 				b, _ := json.Marshal(st.Res)
 				if string(a) != string(b) {
-					res = schedResult{N: n, Verdict: "violation", Step: i, Schedule: steps,
+					res = schedResult{N: n, Verdict: "mismatch", Step: i, Schedule: steps,
 						Why: fmt.Sprintf("%s returned %s, the model says %s", st.P, a, b)}
 					abort()
 					break steps
@@ -211,6 +230,12 @@ func concSched(args []string) error {
 		}
 		if res.Verdict == "ok" && len(procs) > 0 {
 			abort()
+		}
+		if res.Verdict == "diverged" || res.Verdict == "mismatch" {
+			hmu.Lock()
+			sort.Slice(hist, func(i, j int) bool { return hist[i].Stamp < hist[j].Stamp })
+			res.History = append([]regEvent{}, hist...)
+			hmu.Unlock()
 		}
 		enc.Encode(res)
 	}
